@@ -615,6 +615,22 @@ fn run_scenario(sc: &J) -> J {
             }
             continue;
         }
+        if kind == "peek" {
+            // the host looks a global of some module up (a module the script may not have imported yet)
+            let module = p.get("module").and_then(|k| k.as_str()).unwrap_or("main");
+            let name = p.get("name").and_then(|k| k.as_str()).unwrap_or("");
+            let r = panic::catch_unwind(panic::AssertUnwindSafe(|| vm.global(module, name).is_some()));
+            let events = SIM.with(|s| std::mem::take(&mut s.borrow_mut().events));
+            match r {
+                Ok(found) => outs.push(json!({"events": events, "outcome": {"peek": found}})),
+                Err(p) => {
+                    outs.push(json!({"events": events, "outcome": {"panic": panic_msg(p)}}));
+                    std::mem::forget(vm);
+                    return finish(sc, outs);
+                }
+            }
+            continue;
+        }
         if kind == "setprinter" {
             // the host installs its printer again in the middle of a session (e.g. to redirect output)
             let r = panic::catch_unwind(panic::AssertUnwindSafe(|| vm.set_printer(printer)));
